@@ -236,6 +236,9 @@ func (x *replayX) qual(p *types.Package) string {
 func (x *replayX) typeStr(t types.Type) string { return types.TypeString(t, x.qual) }
 
 func (x *replayX) evalInt(term string, bits int, signed bool) (*big.Int, error) {
+	if strings.Contains(term, "@zero") {
+		return new(big.Int), nil
+	}
 	v, err := x.s.getValue(term)
 	if err != nil {
 		return nil, err
@@ -294,7 +297,9 @@ func (x *replayX) loadTerms(t types.Type, obj, off string) ([]string, error) {
 	for i, s := range ls {
 		h, ok := x.rc.EntryH[s]
 		if !ok {
-			return nil, unsupported{"no entry heap for sort " + string(s)}
+			// the function never touches memory of this sort: its contents are irrelevant to the run, use zero
+			out = append(out, "@zero")
+			continue
 		}
 		o := off
 		if i > 0 {
@@ -357,12 +362,18 @@ func (x *replayX) build(t types.Type, L []string, depth int, where string) (stri
 			}
 			return fmt.Sprintf("%s(%s)", x.typeStr(t), n.String()), nil
 		case u.Info()&types.IsBoolean != 0:
+			if L[0] == "@zero" {
+				return fmt.Sprintf("%s(false)", x.typeStr(t)), nil
+			}
 			v, err := x.s.getValue(L[0])
 			if err != nil {
 				return "", err
 			}
 			return fmt.Sprintf("%s(%s)", x.typeStr(t), strings.TrimSpace(v)), nil
 		case u.Info()&types.IsString != 0:
+			if L[0] == "@zero" {
+				return fmt.Sprintf("%s(\"\")", x.typeStr(t)), nil
+			}
 			n, err := x.idx("(slen " + L[0] + ")")
 			if err != nil {
 				return "", err
@@ -1004,6 +1015,9 @@ func replayModel(prop string, o *Obligation, dir string) *ReplayResult {
 	for _, c := range append(append([]string{}, x.prefsNil...), x.prefsSize...) {
 		if time.Now().After(deadline) {
 			break
+		}
+		if strings.Contains(c, "@zero") {
+			continue
 		}
 		os.WriteFile(pf, []byte(base+accepted+"(assert "+c+")\n(check-sat)\n"), 0o644)
 		outb, _ := exec.Command("z3-new", "-T:4", pf).CombinedOutput()
